@@ -191,6 +191,19 @@ CLAIMED = {
         "raises' and the multi-key paths are not covered. Trusted: dict axioms, C11 contracts, injective node names, monotone clock.",
    technique="contract-based deductive verification: representation invariant + transition contracts (z3, arrays + quantifiers)",
    ref="5 C13"),
+ "C19": dict(
+   text="reconfigure_nodes() is executed symbolically from the real source over an advertised node list of symbolic length (three loop "
+        "invariants: old nodes leave rotation, advertised nodes enter client table and rotation, old clients are closed): afterwards the "
+        "client table and the rotation are exactly the advertised nodes and every client of the previous table had close() called. "
+        "_get_nodes_list(): the temporary client is closed on every exit, failures propagate, a MemcacheUnknownCommandError from the "
+        "config command is re-raised (no internal error), the command and 7-byte end token are as specified; reading the reply however it "
+        "is split is _readsegment's contract (C03).",
+   note="BOUNDED stand-in (not counted as discharged): parsing of the configuration text and whole reconfiguration sequences are "
+        "enumerated on the real class with a fake socket module (1..6 nodes, use_vpc on/off, scale-up/down sequences, 3 segmentations). "
+        "Known finding (recorded, not repaired): a bare 'ERROR' line without the end token is not recognised by raw_command. Trusted: "
+        "dict axioms, add_server contract, distinct node names.",
+   technique="contract-based deductive verification: loop invariants over ghost tables (z3); text parsing by bounded enumeration",
+   ref="5 C19"),
 }
 REASON_PENDING = "contracts designed (DESIGN.md section 5) but not yet mechanised; not claimed"
 
